@@ -405,9 +405,21 @@ def g_other(rng, x, kind):
             return g_cf(rng, b, P, not auto, members=x["members"])
         return g_container(rng, t, nb, P, not auto, b)
     if kind == "edges":
+        # another binning, from clearly different down to one unit in the last place of one edge
         b2 = copy.deepcopy(b)
         i = rng.randrange(len(b2["edges"]))
-        b2["edges"][i] += 1.0 / 32
+        how = rng.choice(["coarse", "1e-6", "1e-9", "ulp-up", "ulp-down"])
+        e = b2["edges"][i]
+        if how == "coarse":
+            b2["edges"][i] = e + 1.0 / 32
+        elif how == "1e-6":
+            b2["edges"][i] = e + max(abs(e), 0.125) * 2.0 ** -20
+        elif how == "1e-9":
+            b2["edges"][i] = e + max(abs(e), 0.125) * 2.0 ** -30
+        elif how == "ulp-up":
+            b2["edges"][i] = float(np.nextafter(e, np.inf))
+        else:
+            b2["edges"][i] = float(np.nextafter(e, -np.inf))
         return g_container(rng, t, nb, P, auto, b2, members=x.get("members"))
     if kind == "closed":
         b2 = dict(b, closed="left" if b["closed"] == "right" else "right")
@@ -565,6 +577,25 @@ def mk_fixed():
     out.append(dict(x=cf, op=dict(op="iadd", other_kind="same"), other=copy.deepcopy(cf)))
     out.append(dict(x=sd, op=dict(op="isub", other_kind="same"), other=copy.deepcopy(sd)))
     out.append(dict(x=nc, op=dict(op="imul", k=2.0, ktype="float"), other=None))
+    # nearly equal binnings (one edge off by 2^-30 relative / by one unit in the last place) are other binnings
+    def near(x, rel):
+        y = copy.deepcopy(x)
+        def bump(bd):
+            bd["edges"][1] = bd["edges"][1] * (1.0 + rel) if rel else float(np.nextafter(bd["edges"][1], np.inf))
+        def walk(d):
+            if isinstance(d, dict):
+                if d.get("t") == "bin":
+                    bump(d)
+                else:
+                    for v in d.values():
+                        walk(v)
+        walk(y)
+        return y
+    for x in (pc, sw, nc, cf, sd):
+        for rel in (2.0 ** -30, 0.0):
+            out.append(dict(x=x, op=dict(op="eq", other_kind="edges"), other=near(x, rel)))
+            out.append(dict(x=x, op=dict(op="compat", other_kind="edges"), other=near(x, rel)))
+            out.append(dict(x=x, op=dict(op="add", other_kind="edges"), other=near(x, rel)))
     for x in (pc, sw, nc, cf, sd):
         out.append(dict(x=x, op=dict(op="eq", other_kind="same"), other=copy.deepcopy(x)))
         out.append(dict(x=x, op=dict(op="iter_bins"), other=None))
